@@ -695,6 +695,7 @@ def replay_class_tree(p: Program, graph: tlc.Graph, *, seed=0, deadline=None, co
             u = parent[u][0] if parent[u] is not None else None
     covered = covered if covered is not None else set()
     mism, steps, done = [], 0, 0
+    replay_class_tree.paths = 0
     impl = Impl(p, seed=seed)
     try:
         root = graph.init[0]
@@ -735,6 +736,7 @@ def replay_class_tree(p: Program, graph: tlc.Graph, *, seed=0, deadline=None, co
                 continue
             if kind == "rep":
                 done += 1
+                replay_class_tree.paths += 1        # a path from the initial state ending with this edge was executed and compared
             else:
                 stack.append((v, path + [lab], impl.w.eng.save_state(), work(v)))
         sqlerrs = [dict(path=[], error=e) for e in impl.sqlerrors]
@@ -760,6 +762,7 @@ def replay_graph(ctx, p: Program, graph: tlc.Graph, *, seed=0, max_steps=None, f
     # (the class pass may overrun the program's share of the budget on a slow machine: what a check detects must not depend on load)
     cdl = None if deadline is None else t0 + 2.5 * span
     csteps, cdone, ctotal, cmism, cerrs = replay_class_tree(p, graph, seed=seed, deadline=cdl, covered=covered)
+    npaths = replay_class_tree.paths
     steps += csteps
     mism += cmism
     sqlerrs += cerrs
@@ -768,10 +771,12 @@ def replay_graph(ctx, p: Program, graph: tlc.Graph, *, seed=0, max_steps=None, f
         # then every remaining edge, by the same rewinding traversal, until three quarters of the budget are used
         edl = None if deadline is None else t0 + 0.75 * span
         esteps, _edone, _etotal, emism, eerrs = replay_class_tree(p, graph, seed=seed + 1, deadline=edl, covered=covered, all_edges=True)
+        npaths += replay_class_tree.paths
         steps += esteps
         mism += emism
         sqlerrs += eerrs
         class_stats["rewinding_steps"] = csteps + esteps
+    class_stats["rewinding_paths"] = npaths
     out_edges = graph.out_edges() if check_selection else {}
     sel_checked = set()
     sel_problems = []
@@ -974,17 +979,19 @@ def run_property(ctx, pid, invariants, properties, quick_programs, thorough_prog
         if st["ran_inside"] == 0 and not ctx.viol:
             raise RuntimeError(f"overlapping-transactions stage: no intruder ever ran inside a transaction ({st})")
     if merge:
-        ctx.cov["traces_validated_against_impl"] += sum(s["walks"] for s in ctx.cov.get("graph_replay", [])) + n_b2
+        ctx.cov["traces_validated_against_impl"] += sum(s["walks"] + s.get("rewinding_paths", 0) for s in ctx.cov.get("graph_replay", [])) + n_b2
         ctx.cov["evaluations"] += total_steps
         ctx.cov["distinct_nontrivial"] += total_edges
         return
-    ctx.cov["traces_validated_against_impl"] = sum(s["walks"] for s in ctx.cov.get("graph_replay", [])) + n_b2
+    ctx.cov["traces_validated_against_impl"] = sum(s["walks"] + s.get("rewinding_paths", 0) for s in ctx.cov.get("graph_replay", [])) + n_b2
     ctx.cov["evaluations"] = total_steps
     ctx.cov["distinct_nontrivial"] = total_edges
     ctx.cov["exhaustive"] = False if ctx.quick else all(s["edges_covered"] == s["edges"] for s in ctx.cov.get("graph_replay", []))
     ctx.cov["rule"] = ("TLC explores BatchDB exhaustively for each program (all interleavings of front-end, driver, worker and canceller steps); "
-                       "every walk through the labelled state graph is executed on the real SQL (MiniMySQL) + real Python front end and the "
-                       "full projected state compared after each step; distinct_nontrivial = distinct graph edges executed on the code")
+                       "the labelled state graph is executed on the real SQL (MiniMySQL) + real Python front end - a rewinding traversal of its breadth-first tree "
+                       "(one representative edge of every edge class, then every remaining edge), then prefix walks - and the full projected state compared after "
+                       "each step; traces = paths from the initial state ending in an executed edge + walks + validated random histories; "
+                       "distinct_nontrivial = distinct graph edges executed on the code")
     ctx.assume("MiniMySQL (vlib/minimysql) renders the MySQL semantics of the statements in batch/sql and batch/batch/**.py faithfully",
                "each stored-procedure call and each @transaction block is atomic and serialisable (checked for pairs of overlapping "
                "transactions by the overlapping-transactions stage under the isolation model of vlib/minimysql/isolation.py)",
